@@ -38,6 +38,7 @@ impl EventStore {
             .truncate(false)
             .create(true)
             .open(event_map_file)?;
+        vpoint!("es.new.after_open");
 
         // Get it's size
         let metadata = event_map_file.metadata()?;
@@ -52,10 +53,12 @@ impl EventStore {
             // grow to initial size
             len = EVENT_MAP_CHUNK;
             event_map_file.set_len(EVENT_MAP_CHUNK as u64)?;
+            vpoint!("es.new.after_set_len");
         }
 
         // Memory map it
         let event_map = unsafe { MmapAppend::new(&event_map_file, new)? };
+        vpoint!("es.new.after_map");
 
         Ok(EventStore {
             event_map_file,
@@ -85,6 +88,7 @@ impl EventStore {
     // It does NOT record the event into any indexes
     // But it does grow the file if needed and returns the offset where it was stored
     pub(crate) fn store_event(&self, event: &Event) -> Result<usize, Error> {
+        vpoint!("es.store.begin");
         // Align to 8 bytes
         let mut end = self.event_map.get_end();
         if end % 8 != 0 {
@@ -92,12 +96,21 @@ impl EventStore {
             end += padding;
             assert_eq!(end % 8, 0);
             let _ = self.event_map.append(padding, |_| Ok(padding))?;
+            vpoint!("es.store.after_padding");
         }
 
         let event_size = event.len();
 
         loop {
             let result = self.event_map.append(event_size, |dst| {
+                // Under verification, expose an instant at which only the first half
+                // of the event has been copied (the full copy below redoes it)
+                #[cfg(feature = "verif")]
+                {
+                    let half = event_size / 2;
+                    dst[..half].copy_from_slice(&event.as_bytes()[..half]);
+                    vpoint!("es.store.mid_copy");
+                }
                 event.copy(dst).map_err(std::io::Error::other)
             });
 
@@ -106,6 +119,7 @@ impl EventStore {
                 Err(e) => {
                     if e.kind() == std::io::ErrorKind::Other {
                         if e.to_string() == "Out of space" {
+                            vpoint!("es.store.out_of_space");
                             // Determine the new size
                             let new_file_len = {
                                 let file_len = self.event_map_file_len.load(Ordering::Relaxed);
@@ -114,9 +128,11 @@ impl EventStore {
 
                             // Grow the file
                             self.event_map_file.set_len(new_file_len as u64)?;
+                            vpoint!("es.store.after_set_len");
 
                             // Resize the memory map
                             self.event_map.resize(new_file_len)?;
+                            vpoint!("es.store.after_resize");
 
                             // Save this new length
                             self.event_map_file_len
